@@ -22,7 +22,7 @@ class Function(Token):
     _re = regex.compile(r'^\s*@?(?P<name>[A-Z_][\w\.]*)\(\s*', regex.IGNORECASE)
 
     def ast(self, tokens, stack, builder, check_n=lambda *args: True,
-            adjacent=True):
+            adjacent=True, brace=False):
         if adjacent and tokens:  # Not directly after an operand or a ')'.
             from .operand import Operand
             t = tokens[-1]
@@ -34,6 +34,8 @@ class Function(Token):
         stack.append(self)
         t = Parenthesis('(')
         t.attr['check_n'] = check_n
+        if brace:  # Opened by '{' or ';': only '}' or ';' may close it.
+            t.attr['brace'] = True
         t.ast(tokens, stack, builder)
 
     def compile(self):
@@ -54,15 +56,23 @@ class Array(Function):
 
     def ast(self, tokens, stack, builder, check_n=lambda t: t.n_args):
         if self.has_start:
-            Function('ARRAY(').ast(tokens, stack, builder, check_n=check_n)
-            Function('ARRAY(').ast(tokens, stack, builder, check_n=check_n)
+            Function('ARRAY(').ast(
+                tokens, stack, builder, check_n=check_n, brace=True
+            )
+            Function('ARRAY(').ast(
+                tokens, stack, builder, check_n=check_n, brace=True
+            )
         else:
             token = Parenthesis(')')
+            token.attr['brace'] = True
             token.ast(tokens, stack, builder)
             if self.has_sep:
                 check_n = functools.partial(_check_tkn_n_args, token.get_n_args)
                 Function('ARRAY(').ast(
-                    tokens, stack, builder, check_n=check_n, adjacent=False
+                    tokens, stack, builder, check_n=check_n, adjacent=False,
+                    brace=True
                 )
             else:
-                Parenthesis(')').ast(tokens, stack, builder)
+                token = Parenthesis(')')
+                token.attr['brace'] = True
+                token.ast(tokens, stack, builder)
